@@ -39,6 +39,10 @@ class Crate:
             if len(user) != 1:
                 raise ValueError('entry %s: expected exactly one walked call in shim, got %d' % (r, len(user)))
             self.entries[name] = user[0]['callee']
+        # eager iterator consumers taking a workspace closure (for_each, try_for_each, all, any, fold, try_fold) become the explicit
+        # next()-loop a `for` compiles to, with the closure body spliced in (see iterinline.py)
+        import iterinline
+        iterinline.inline_all(self.inst)
         self._prep()
 
     def _prep(self):
